@@ -26,7 +26,7 @@ structure Acct (s : St) : Prop where
     (o.res ≠ some .ack → ch.finScrub = false ∧ ch.timedOut = false) ∧ (o.phase ≠ .taken → ch.items = [])
   qTimeout : ∀ i ∈ s.opQ, ∀ o : Op, s.ops[i]? = some o → o.res = some .timeout → o.id ∈ s.scrubQ ∨ o.id ∉ s.inUse
   ackTaken : ∀ (i : Nat) (o : Op), s.ops[i]? = some o → (o.res = some .ack ∨ o.mail = .ack) → o.phase = .taken
-  acct : s.drv = .running → ∀ k ∈ s.inUse, ∃ (i : Nat) (o : Op), s.ops[i]? = some o ∧ o.id = k ∧ Reg s i o
+  acct : ∀ k ∈ s.inUse, ∃ (i : Nat) (o : Op), s.ops[i]? = some o ∧ o.id = k ∧ Reg s i o
   dead : s.drv ≠ .running → s.resultmap = [] ∧ s.searchmap = [] ∧ s.opQ = []
   chanIdx : ∀ (c : Nat) (ch : Chan), s.chans[c]? = some ch → ch.opIdx < s.ops.length
   qNodup : s.opQ.Nodup
@@ -57,9 +57,9 @@ theorem Acct.congr {s s' : St} (h : Acct s) (ho : s'.ops = s.ops) (hc : s'.chans
   · rw [ho, hc]; exact a7
   · rw [hq, ho, hsq, hi]; exact a8
   · rw [ho]; exact a9
-  · rw [hd, hi, ho]
-    intro hrun k hk
-    obtain ⟨i, o, h1, h2, h3⟩ := a10 hrun k hk
+  · rw [hi, ho]
+    intro k hk
+    obtain ⟨i, o, h1, h2, h3⟩ := a10 k hk
     refine ⟨i, o, h1, h2, ?_⟩
     unfold Reg at h3 ⊢
     rw [hq, hr, hsm]; exact h3
@@ -185,12 +185,12 @@ theorem Acct.alloc {s s' : St} {ob : Obs} (h : Acct s) (kind : Kind)
       rcases hops i o ho with h1 | ⟨_, rfl⟩
       · exact a9 i o h1 hr
       · simp [newOp] at hr
-    · intro hrun k hk
+    · intro k hk
       simp only [List.mem_cons] at hk
       rcases hk with rfl | hk
       · refine ⟨s.ops.length, newOp k kind s.chans.length, ?_, rfl, Or.inl rfl⟩
         rw [get_append_one]; simp
-      · obtain ⟨i, o, h1, h2, h3⟩ := a10 hrun k hk
+      · obtain ⟨i, o, h1, h2, h3⟩ := a10 k hk
         exact ⟨i, o, oldop i o h1, h2, h3⟩
     · exact a11
     · intro c ch hc
@@ -262,7 +262,12 @@ theorem Acct.enqueue {s s' : St} {ob : Obs} (h : Acct s) (i : Nat) (tmo : Option
           split at hoj
           · simp only [Option.some.injEq] at hoj; subst hoj; simp at hr
           · exact a9 j oj hoj hr
-        · intro hrun; exact absurd hrun hd
+        · intro k hk
+          obtain ⟨hkin, hkne⟩ := mem_eraseId.mp hk
+          obtain ⟨j, oj, h1, h2, h3⟩ := a10 k hkin
+          have hji : j ≠ i := by
+            intro e; rw [e, ho] at h1; cases h1; exact hkne (by rw [h2])
+          exact ⟨j, oj, by rw [get_set _ j ho, if_neg hji]; exact h1, h2, h3⟩
         · intro _; exact ⟨d1, d2, d3⟩
         · intro c ch hc; rw [List.length_set]; exact a12 c ch hc
       · -- queued
@@ -334,8 +339,8 @@ theorem Acct.enqueue {s s' : St} {ob : Obs} (h : Acct s) (i : Nat) (tmo : Option
             simp only [hres, hmail] at hr
             rcases hr with hr | hr <;> cases hr
           · exact a9 j oj hoj hr
-        · intro _ k hk
-          obtain ⟨j, oj, h1, h2, h3⟩ := a10 hrun k hk
+        · intro k hk
+          obtain ⟨j, oj, h1, h2, h3⟩ := a10 k hk
           by_cases e : j = i
           · subst e
             rw [ho] at h1; cases h1
@@ -512,8 +517,8 @@ theorem Acct.setRes {s : St} (h : Acct s) (i : Nat) (o : Op) (ho : s.ops[i]? = s
         all_goals (rw [e1] at hh; cases hh)
       · exact a9 j o ho (Or.inr hh)
     · exact a9 j oj h1 hh
-  · intro hrun k hk
-    obtain ⟨j, oj, h1, h2, h3⟩ := a10 hrun k hk
+  · intro k hk
+    obtain ⟨j, oj, h1, h2, h3⟩ := a10 k hk
     by_cases e : j = i
     · subst e; rw [ho] at h1; cases h1
       exact ⟨j, { o with res := some r }, hputi, h2, h3⟩
@@ -649,8 +654,8 @@ theorem Acct.chanUpd {s : St} (h : Acct s) (c : Nat) (ch : Chan) (o : Op) (hc : 
     rcases a8 j hj oj hoj hto2 with h2 | h2
     · exact Or.inl (hsub _ h2)
     · exact Or.inr h2
-  · intro hrun k hk
-    exact a10 hrun k hk
+  · intro k hk
+    exact a10 k hk
   · intro d chd hd
     rcases hget d chd hd with ⟨e, rfl⟩ | ⟨_, h1⟩
     · rw [hidx]; exact a12 c ch hc
@@ -728,7 +733,7 @@ theorem Acct.finish {s s' : St} {ob : Obs} (h : Acct s) (c : Nat) (b : Bool)
 /-- a state in which the driver has ended: queue and maps dropped, operations only "deadened"
 (reply senders dropped, queued requests discarded) -/
 theorem Acct.dead_of {s s' : St} (h : Acct s) (hd : s'.drv ≠ .running) (hq : s'.opQ = []) (hr : s'.resultmap = [])
-    (hsm : s'.searchmap = []) (hc : s'.chans = s.chans) (hlen : s'.ops.length = s.ops.length)
+    (hsm : s'.searchmap = []) (hin : s'.inUse = []) (hc : s'.chans = s.chans) (hlen : s'.ops.length = s.ops.length)
     (hops : ∀ (j : Nat) (o' : Op), s'.ops[j]? = some o' → ∃ o : Op, s.ops[j]? = some o ∧ o'.kind = o.kind ∧
       o'.chan = o.chan ∧ o'.res = o.res ∧ o'.phase ≠ .queued ∧ (o'.phase ≠ .taken → o' = o) ∧
       (o'.mail = .ack → o.mail = .ack) ∧ (o.phase = .taken → o'.phase = .taken)) : Acct s' := by
@@ -764,14 +769,14 @@ theorem Acct.dead_of {s s' : St} (h : Acct s) (hd : s'.drv ≠ .running) (hq : s
     rcases hh with hh | hh
     · exact Or.inl (by rw [← hres]; exact hh)
     · exact Or.inr (hma hh)
-  · intro hrun; exact absurd hrun hd
+  · intro k hk; rw [hin] at hk; cases hk
   · intro _; exact ⟨hr, hsm, hq⟩
   · intro c ch hcc
     rw [hc] at hcc; rw [hlen]; exact a12 c ch hcc
   · rw [hq]; exact List.nodup_nil
 
 theorem Acct.endDriver {s : St} (h : Acct s) (how : Drv) (hhow : how ≠ .running) : Acct (Conn.endDriver s how) := by
-  apply h.dead_of (s' := Conn.endDriver s how) hhow rfl rfl rfl rfl (by simp [Conn.endDriver])
+  apply h.dead_of (s' := Conn.endDriver s how) hhow rfl rfl rfl rfl rfl (by simp [Conn.endDriver])
   intro j o' ho'
   rw [endDriver_get] at ho'
   cases ho : s.ops[j]? with
@@ -934,10 +939,10 @@ theorem Acct.drvScrub {s s' : St} {ob : Obs} (h : Acct s) (hs : step s .drvScrub
         · rcases hmail with e | ⟨_, e⟩
           · exact Or.inr (by rw [← e]; exact hh)
           · rw [e] at hh; cases hh
-      · intro _ x hx
+      · intro x hx
         obtain ⟨hxin, hxne⟩ := mem_eraseId.mp hx
         have hxk : x ≠ k := fun e => hxne (by rw [e])
-        obtain ⟨j, o, ho, hid, hreg⟩ := a10 hrun x hxin
+        obtain ⟨j, o, ho, hid, hreg⟩ := a10 x hxin
         refine ⟨j, o, hsame j o ho (Or.inl (by rw [hid]; exact hxk)), hid, ?_⟩
         rcases hreg with r | r | r | ⟨c, r1, r2⟩ | r
         · exact Or.inl r
@@ -1058,9 +1063,9 @@ theorem Acct.release {s s' : St} (h : Acct s) (n : Nat) (rem : Prop) (hrun : s.d
     rcases heq with e | ⟨_, ht, hna⟩
     · subst e; exact a9 j o' ho hh
     · exact ht
-  · intro _ k hk
+  · intro k hk
     obtain ⟨hkin, hkne⟩ := hin k hk
-    obtain ⟨j, o, ho, hid, hreg⟩ := a10 hrun k hkin
+    obtain ⟨j, o, ho, hid, hreg⟩ := a10 k hkin
     obtain ⟨o', ho', hid', hkind, hchn, _, hph, _⟩ := hops j o ho
     refine ⟨j, o', ho', by rw [hid']; exact hid, ?_⟩
     unfold Reg at hreg ⊢
@@ -1361,10 +1366,10 @@ theorem Acct.take {s s' : St} (h : Acct s) (hrun : s.drv = .running) {i : Nat} {
       rcases heq with e | ⟨ht, _⟩
       · subst e; exact a9 j oj' hoj hh
       · rw [hph]; exact ht
-  · intro _ k hk
+  · intro k hk
     by_cases hko : k = o.id
     · exact ⟨i, oi', hoi, by rw [hoi1, hko], hregi (hko ▸ hk)⟩
-    · obtain ⟨j, oj, hoj, hid, hreg⟩ := a10 hrun k (hin k hk)
+    · obtain ⟨j, oj, hoj, hid, hreg⟩ := a10 k (hin k hk)
       have hji : j ≠ i := by
         intro e; rw [e, ho] at hoj; cases hoj; exact hko hid.symm
       obtain ⟨oj', hoj', hid', hkind, hchn, _, hph, _⟩ := hfwd j hji oj hoj
